@@ -9,7 +9,10 @@
 (* A letter is a record                                                                           *)
 (*   [name, t \in {"v","a","m"}, n = payload length, b0, b1 = first bytes (-1 if absent),          *)
 (*    hv = bytes 1..4 are "hvc1", sh = kind of complete valid sequence header ("" if none),        *)
-(*    loose = forwarded form is empty (delivery not predicted), tsx = sent with every ts class]    *)
+(*    loose = forwarded form is empty (delivery not predicted), tsx = sent with every ts class,   *)
+(*    mac = audio codec named by a metadata message, which lal's RTSP remuxer takes over ("" | "pt"),*)
+(*    lax = not a complete valid header, yet lal's structural parsers take parameter sets / an audio *)
+(*    config out of it]                                                                            *)
 (* The bytes behind a name are built by the driver (harness/drv/payloads.go), which refuses to run *)
 (* when they do not have these attributes.  A timestamp class is one of                            *)
 (*   "z" (back to 0)  "p1" (+1)  "p40" (+40)  "hop" (+1 h)  "jump" (+2^31)  "max" (2^32-1)             *)
@@ -45,8 +48,31 @@ AacSh(m)   == m.t = "a" /\ m.n >= 2 /\ (m.b0 \div 16) = 10 /\ m.b1 = 0
 (*   vk/ak what the remuxers could cache: none | avc | hevc | ehevc | bad ;  none | aac | other | bad *)
 (*   hi    the timestamp is in the upper half of the 32-bit range                                    *)
 (*   ds    dummy-audio filter stage: off | ana | ana1 (first video seen) | normal | dummy            *)
+(* Stages that end BY COUNT.  lal's remuxers look at the first messages of a stream and leave that   *)
+(* stage when they have identified both tracks or after 16 messages, whatever they found:            *)
+(*   remux.rtmp2MpegtsFilter   probes every non-empty message (metadata included) until it has seen  *)
+(*                             an audio and a video message, or 16 messages: then PAT/PMT go out for  *)
+(*                             the codec ids it knows (possibly none) and the queue is flushed;       *)
+(*   remux.Rtmp2RtspRemuxer    caches audio (> 2 bytes) / video (> 5 bytes) messages that are not     *)
+(*                             sequence headers until parameter sets AND an audio codec are known, or *)
+(*                             16 messages are cached: then the session description goes out with the *)
+(*                             tracks identified so far (possibly none), parked DESCRIBEs are         *)
+(*                             answered and the cache is flushed.  G.711 / Opus audio (or metadata    *)
+(*                             naming them) identifies the audio track at any time, also afterwards.  *)
+(* A history that went through a staging macro (stg = "s", see StageStep) carries the exact state of  *)
+(* both:                                                                                             *)
+(*   tp/tn/tv/ta  TS probe: "probe" | "id" (both seen) | "cnt" (16 messages); messages queued;        *)
+(*                class of the codec id of the last video / audio message seen while probing          *)
+(*   rp/rn/rv/ra  RTSP analysis: "ana" | "id" | "cnt"; messages cached; parameter sets known; audio   *)
+(*                codec known                                                                         *)
+(* stg = "" for the histories reached by single letters only (the stages are not tracked there: they  *)
+(* end by identification in most of them), "end" for the sink behind a staged history.               *)
+NoStage == [stg |-> "", tp |-> "probe", tn |-> 0, tv |-> "none", ta |-> "none",
+            rp |-> "ana", rn |-> 0, rv |-> FALSE, ra |-> FALSE]
 InitH(c) == [cfg |-> c, vc |-> FALSE, late |-> "no", vk |-> "none", ak |-> "none", hi |-> FALSE,
-             ds |-> IF c.dummy THEN "ana" ELSE "off"]
+             ds |-> IF c.dummy THEN "ana" ELSE "off"] @@ NoStage
+
+StageLimit == 16       \* maxAnalyzeAvMsgSize = calcFragmentHeaderQueueSize = 16
 
 NextDs(h, m, op) ==
   CASE h.ds = "ana"  -> IF m.t = "a" THEN "normal" ELSE IF m.t = "v" /\ ~Ksh(m) THEN "ana1" ELSE "ana"
@@ -56,22 +82,85 @@ NextDs(h, m, op) ==
 
 NextHi(h, op) == CASE op = "z" -> FALSE [] op = "max" -> TRUE [] op = "jump" -> ~h.hi [] OTHER -> h.hi
 
+\* codec id classes as mpegts.PackPmt distinguishes them
+VidClass(m) == IF Ex(m) THEN (IF m.n >= 5 /\ m.hv THEN "hevc" ELSE "avc")
+               ELSE IF (m.b0 % 16) = 7 THEN "avc" ELSE IF (m.b0 % 16) = 12 THEN "hevc" ELSE "other"
+AudClass(m) == IF (m.b0 \div 16) = 10 THEN "aac" ELSE IF (m.b0 \div 16) = 13 THEN "opus" ELSE "other"
+PcmOpus(m)  == m.t = "a" /\ m.n > 2 /\ (m.b0 \div 16) \in {7, 8, 13}
+Cacheable(m) == \/ m.t = "a" /\ m.n > 2 /\ ~AacSh(m)
+                \/ m.t = "v" /\ m.n > 5 /\ ~Ksh(m)
+
+\* rtmp2MpegtsFilter.Push
+TsProbe(h, m) ==
+  IF h.tp # "probe" \/ m.n = 0 THEN h
+  ELSE LET tv1 == IF m.t = "v" THEN VidClass(m) ELSE h.tv
+           ta1 == IF m.t = "a" THEN AudClass(m) ELSE h.ta
+           n1  == h.tn + 1
+           tp1 == IF tv1 # "none" /\ ta1 # "none" THEN "id" ELSE IF n1 >= StageLimit THEN "cnt" ELSE "probe"
+       IN [h EXCEPT !.tv = tv1, !.ta = ta1, !.tp = tp1, !.tn = IF tp1 = "probe" THEN n1 ELSE 0]
+
+\* Rtmp2RtspRemuxer.FeedRtmpMsg
+RtspAna(h, m) ==
+  IF m.n = 0 THEN h
+  ELSE IF m.t = "m" THEN [h EXCEPT !.ra = h.ra \/ m.mac # ""]
+  ELSE IF (m.t = "a" /\ m.n <= 2) \/ (m.t = "v" /\ m.n <= 5) THEN h
+  ELSE LET ra1 == h.ra \/ PcmOpus(m) \/ (h.rp = "ana" /\ AacSh(m) /\ (m.sh = "aac" \/ m.lax))
+       IN IF h.rp # "ana" THEN [h EXCEPT !.ra = ra1]
+          ELSE LET rv1 == IF Ksh(m) THEN (m.sh # "" \/ m.lax) ELSE h.rv
+                   n1  == IF Cacheable(m) THEN h.rn + 1 ELSE h.rn
+                   rp1 == IF rv1 /\ ra1 THEN "id" ELSE IF n1 >= StageLimit THEN "cnt" ELSE "ana"
+               IN [h EXCEPT !.ra = ra1, !.rv = rv1, !.rp = rp1, !.rn = IF rp1 = "ana" THEN n1 ELSE 0]
+
+Detailed(h) == h.cfg.predict \/ h.stg = "s"
+
 Step(h, m, op) ==
-  LET live == m.n > 0 IN
-  IF h.cfg.predict
-  THEN [h EXCEPT !.vc = h.vc \/ (live /\ Ksh(m)),
-                 !.late = IF h.late = "wait" /\ live /\ Key(m) THEN "flow" ELSE h.late,
-                 !.vk = IF live /\ Ksh(m) THEN (IF m.sh # "" THEN m.sh ELSE "bad") ELSE h.vk,
-                 !.ak = IF m.t = "a" /\ live
-                          THEN (IF AacSh(m) THEN (IF m.sh = "aac" THEN "aac" ELSE "bad")
-                                ELSE IF (m.b0 \div 16) = 10 THEN h.ak ELSE "other")
-                          ELSE h.ak,
-                 !.hi = NextHi(h, op)]
-  ELSE [h EXCEPT !.vk = IF live /\ m.t = "v" THEN "some" ELSE h.vk,
-                 !.hi = NextHi(h, op),
-                 !.ds = NextDs(h, m, op)]
+  LET live == m.n > 0
+      b == IF Detailed(h)
+           THEN [h EXCEPT !.vc = h.vc \/ (live /\ Ksh(m)),
+                          !.late = IF h.late = "wait" /\ live /\ Key(m) THEN "flow" ELSE h.late,
+                          !.vk = IF live /\ Ksh(m) THEN (IF m.sh # "" THEN m.sh ELSE "bad") ELSE h.vk,
+                          !.ak = IF m.t = "a" /\ live
+                                   THEN (IF AacSh(m) THEN (IF m.sh = "aac" THEN "aac" ELSE "bad")
+                                         ELSE IF (m.b0 \div 16) = 10 THEN h.ak ELSE "other")
+                                   ELSE h.ak,
+                          !.hi = NextHi(h, op),
+                          !.ds = IF h.cfg.dummy THEN NextDs(h, m, op) ELSE h.ds]
+           ELSE [h EXCEPT !.vk = IF live /\ m.t = "v" THEN "some" ELSE h.vk,
+                          !.hi = NextHi(h, op),
+                          !.ds = NextDs(h, m, op)]
+  IN IF h.stg = "s" THEN RtspAna(TsProbe(b, m), m) ELSE b
 
 JoinStep(h) == [h EXCEPT !.late = IF h.cfg.predict /\ h.vc THEN "wait" ELSE "flow"]
+
+(* Staging macro: what the first messages of a stream look like when they come in a run.           *)
+(*   s = [hdr, m, k, ts, j]: an optional sequence header (hdr.name = "" if none), then k copies of  *)
+(*   letter m, each `ts` after the one before; if j > 0 the second set of consumers joins after j of *)
+(*   them.  The driver expands it; the model folds Step over it, so the counters are exact.          *)
+(* Only a stream that has published nothing yet can be staged.  A staged history takes every letter  *)
+(* once more: a letter that leaves it unchanged can be followed by another one, the first one that  *)
+(* changes anything ends the scenario (sink), which keeps the staged part of the graph a product    *)
+(* (stage state) x (alphabet) instead of a closure under the whole alphabet.                          *)
+NoLetter == [name |-> "", t |-> "m", n |-> 0, b0 |-> -1, b1 |-> -1, hv |-> FALSE, sh |-> "", loose |-> FALSE,
+             tsx |-> FALSE, mac |-> "", lax |-> FALSE]
+Fresh(h) == h = InitH(h.cfg)
+
+RECURSIVE RepStep(_, _, _, _)
+RepStep(h, m, op, k) == IF k <= 0 THEN h ELSE RepStep(Step(h, m, op), m, op, k - 1)
+
+\* the history in which the LAST copy of s.m is published
+StageBeforeLast(h, s) ==
+  LET h0 == [h EXCEPT !.stg = "s"]
+      h1 == IF s.hdr.name # "" THEN Step(h0, s.hdr, "p40") ELSE h0
+      jj == IF s.j > 0 /\ s.j < s.k THEN s.j ELSE 0
+      h2 == IF jj > 0 THEN JoinStep(RepStep(h1, s.m, s.ts, jj)) ELSE h1
+  IN RepStep(h2, s.m, s.ts, s.k - jj - 1)
+StageStep(h, s) == Step(StageBeforeLast(h, s), s.m, s.ts)
+StageCount(s) == s.k + (IF s.hdr.name # "" THEN 1 ELSE 0)
+
+Sink(c) == [InitH(c) EXCEPT !.stg = "end"]
+\* the transition of the model for one published letter
+MStep(h, m, op) == LET h2 == Step(h, m, op)
+                   IN IF h.stg = "s" /\ h2 # h THEN Sink(h.cfg) ELSE h2
 
 (* What the opaque outputs do with message m in history h.                                          *)
 Outcome(h, m) ==
